@@ -204,15 +204,15 @@ long syscall(long n, ...) {
 /* ------------------------------------------------------------------ handles */
 enum { K_TCP, K_PIPE, K_UDP, K_TTY, K_POLL, K_ASYNC, K_SIGNAL, K_FSEV, K_PROC };
 static const char* KN[] = { "tcp", "pipe", "udp", "tty", "poll", "async", "signal", "fsev", "proc" };
-struct H { int kind, st /*0 dead 1 live 2 closing 3 closed*/, policy /*0 hold 1 accept*/; uv_handle_t* h; };
+struct H { int kind, st /*0 dead 1 live 2 closing 3 closed*/, policy /*0 hold 1 accept*/, counted; uv_handle_t* h; };
 static struct H HS[256]; static int nh;
 static uv_loop_t* loop; static int loop_ok;
 static long progress; static int nproc_live, nconn_inflight;
 
-static int newh(int kind) { HS[nh].kind = kind; HS[nh].st = 0; HS[nh].policy = 0; HS[nh].h = calloc(1, sizeof(union uv_any_handle)); return nh++; }
+static int newh(int kind) { HS[nh].kind = kind; HS[nh].st = 0; HS[nh].policy = 0; HS[nh].counted = 0; HS[nh].h = calloc(1, sizeof(union uv_any_handle)); return nh++; }
 static int idx_of(uv_handle_t* h) { for (int i = 0; i < nh; i++) if (HS[i].h == h) return i; return -1; }
 static void close_cb(uv_handle_t* h) { int i = idx_of(h); progress++; if (i >= 0) { HS[i].st = 3; HS[i].h = NULL; } free(h); }
-static void do_uvclose(int i) { if (HS[i].st == 1) { HS[i].st = 2; uv_close(HS[i].h, close_cb); } }
+static void do_uvclose(int i) { if (HS[i].st == 1) { if (HS[i].counted) { HS[i].counted = 0; nproc_live--; } HS[i].st = 2; uv_close(HS[i].h, close_cb); } }
 static void kill_dead(int i) { free(HS[i].h); HS[i].h = NULL; HS[i].st = 0; }
 
 static int init_stream_like(int kind, int* rc) {  /* used by accept policies */
@@ -250,7 +250,7 @@ static void read_cb(uv_stream_t* s, ssize_t n, const uv_buf_t* b) {
     if (r) break;
   }
 }
-static void exit_cb(uv_process_t* p, int64_t st, int sig) { int i = idx_of((uv_handle_t*) p); progress++; nproc_live--; outf("# exit h%d status=%d", i, (int) st); do_uvclose(i); }
+static void exit_cb(uv_process_t* p, int64_t st, int sig) { int i = idx_of((uv_handle_t*) p); progress++; outf("# exit h%d status=%d", i, (int) st); do_uvclose(i); }
 static void noop_async(uv_async_t* a) {}
 static void noop_signal(uv_signal_t* s, int n) {}
 static void noop_fsev(uv_fs_event_t* h, const char* f, int ev, int st) {}
@@ -318,6 +318,7 @@ static void monitors(int final) {
     if (!now[k]) { viol("FD-VANISHED", "f%d (kernel %d) is not open any more but nobody logged a close", e->id, k); e->live = 0; continue; }
     if (e->bylib) { int fl = getfd_flags(k); if (fl < 0 || !(fl & FD_CLOEXEC)) viol("NO-CLOEXEC", "f%d created by libuv lacks FD_CLOEXEC at API return", e->id); }
     char ow[256]; owners_of(k, ow, sizeof ow);
+    if (!ow[0] && e->user && e->xfer) e->xfer = 0;   /* handle closed, stdio descriptor left open: back to the caller */
     if (strchr(ow, '+')) viol("OWNER-DUP", "f%d referenced by %s", e->id, ow);
     const char* o = ow[0] ? ow : (e->user ? "U" : e->glob ? "G" : "-");
     if (!strcmp(o, "-") && !e->reported++) viol("LEAK", "f%d created by libuv is open at API return but no loop/handle field refers to it and it was not handed to the caller", e->id);
@@ -570,7 +571,7 @@ int main(int argc, char** argv) {
       o.file = !strcmp(w[1], "ok") ? exe : "/no/such/program"; o.args = args; o.stdio = io; o.stdio_count = cnt; o.exit_cb = exit_cb;
       int rc = UVCALL(uv_spawn(loop, (uv_process_t*) HS[i].h, &o));
       HS[i].st = 1;
-      if (rc == 0) nproc_live++; else { in_uv = 1; do_uvclose(i); in_uv = 0; }
+      if (rc == 0) { nproc_live++; HS[i].counted = 1; } else { in_uv = 1; do_uvclose(i); in_uv = 0; }
       raw6(SYS_close, rp[1], 0, 0, 0, 0, 0); priv[rp[1]] = 0;
       outf("ret %s", R(rc)); outf("# rc=%d", rc);
       if (rc == 0) {
